@@ -75,6 +75,10 @@ func (s SinkX) ReadFrom(r io.Reader) (int64, error) {
 // Flush and Sync make the destination look like a *bufio.Writer / *os.File to
 // code that type-asserts for them. They always succeed (the property is about
 // failing writes) and are recorded.
+// Len and Grow are what *bytes.Buffer offers.
+func (s SinkX) Len() int   { return len(s.Sink.Data) }
+func (s SinkX) Grow(n int) {}
+
 func (s SinkX) Flush() error { s.Sink.Flushes++; return nil }
 func (s SinkX) Sync() error  { s.Sink.Flushes++; return nil }
 
@@ -397,6 +401,12 @@ func (s SourceX) ReadAt(p []byte, off int64) (int, error) {
 	}
 	return n, nil
 }
+
+// Len and Size are what *bytes.Reader and *strings.Reader offer: the unread
+// bytes and the total size (of what is on the simulated disk, i.e. of the
+// prefix after a crash).
+func (s SourceX) Len() int    { return len(s.Source.data) - int(s.Source.pos) }
+func (s SourceX) Size() int64 { return int64(len(s.Source.data)) }
 
 // WriteTo writes the rest of the stream to w (what io.Copy uses when present).
 func (s SourceX) WriteTo(w io.Writer) (int64, error) {
